@@ -270,7 +270,8 @@ def step (st : St) (line : String) : St × String :=
         (st, hexOf ((HasherM.sip k0 k1).hash kk id k) ++ " " ++ hexOf ((HasherM.sip k0 k1).hash .bytes id w))
       | _ => (st, "none")
     | _, _, _ => (st, "bad-op")
-  | ["hash", t] =>
+  -- `hashq` is `hash` (the harness merely skips its own expensive per-request oracle on huge trees)
+  | ["hash", t] | ["hashq", t] =>
     match t.toNat? with
     | some t =>
       match st.trees[t]? with
